@@ -3,6 +3,7 @@ CONSTANTS
   DEV_OversellAccepted = FALSE
   DEV_BuyDepletesBeforeCashCheck = FALSE
   DEV_LimitRejected = FALSE
+  DEV_UsdLimitRejected = FALSE
   DEV_SettleStrictlyAfterExpiry = FALSE
   Scen = 1
   Level = 1
